@@ -28,6 +28,7 @@ pub mod p12_lifetime;
 pub mod progs;
 pub mod p15_construct;
 pub mod xen_emul;
+pub mod p17_guards;
 pub mod p19_address;
 pub mod p20_endian;
 
@@ -51,6 +52,7 @@ pub fn properties() -> Vec<Property> {
         p14_faults::property(),
         p15_construct::property(),
         p05_p16_dirty::property_c16(),
+        p17_guards::property(),
         p19_address::property(),
         p20_endian::property(),
     ]
